@@ -9,7 +9,7 @@ outside the whitelist.
 """
 import ast
 import os
-from .common import TranslationError, parse, find_class, find_func, HEADER, coq_str, normalise
+from .common import TranslationError, parse, find_class, find_func, HEADER, coq_str, normalise, logger_args_inert
 
 OPTIMIZERS = [
     ('ABC', 'abc'), ('AIWPSO', 'aiwpso'), ('BA', 'ba'), ('BHA', 'bha'), ('CS', 'cs'), ('FA', 'fa'),
@@ -457,6 +457,9 @@ class Tr:
             if fn.mod == 'h' and fn.name == 'History':
                 return HIST
             if fn.mod == 'logger':
+                why = logger_args_inert(node)
+                if why:
+                    self.err(node, 'a logging call is only skipped when building its message can neither raise nor change anything: %s' % why)
                 return NUM()
             self.err(node, 'call to %s.%s is outside the whitelist' % full)
         if fn.kind == 'builtin':
@@ -588,6 +591,9 @@ class Tr:
             return []
         fn = self.ev(call.func, env)
         if fn.kind == 'modattr' and fn.mod == 'logger':
+            why = logger_args_inert(call)
+            if why:
+                self.err(call, 'a logging statement is only skipped when building its message can neither raise nor change anything: %s' % why)
             for a in call.args:
                 self.ev_num(a, env)
             return []
